@@ -3,6 +3,7 @@ package main
 // C04 — frozen accounts and paused tokens cannot move funds.
 
 import (
+	"os"
 	"fmt"
 	"go/token"
 	"go/types"
@@ -215,13 +216,34 @@ func c04r1(c *Ctx) {
 				for _, par := range l.env.Fn.Params {
 					note(par)
 				}
-				for _, bb := range l.env.Fn.Blocks {
-					for _, in := range bb.Instrs {
-						if v, ok := in.(ssa.Value); ok {
-							note(v)
+				// … and inside helpers of that level that hand an entry back (a helper that reads the entry, runs the gate on
+				// it and returns it: the gate's facts name the entry in the helper's terms)
+				var inside func(he *Env, d int)
+				inside = func(he *Env, d int) {
+					for _, bb := range he.Fn.Blocks {
+						for _, in := range bb.Instrs {
+							if v, ok := in.(ssa.Value); ok && strings.HasSuffix(v.Type().String(), "esdt.ESDigitalToken") {
+								entryTerms[he.Term(v)] = entryOrigin(he, v, 0)
+							}
+							call, ok := in.(*ssa.Call)
+							if !ok || d >= 2 || he.depth >= maxDepth {
+								continue
+							}
+							sc := call.Call.StaticCallee()
+							if sc == nil || len(sc.Blocks) == 0 || PkgOf(sc) != "builtInFunctions" {
+								continue
+							}
+							res := sc.Signature.Results()
+							for i := 0; i < res.Len(); i++ {
+								if strings.HasSuffix(res.At(i).Type().String(), "esdt.ESDigitalToken") {
+									inside(he.Sub(call, sc), d+1)
+									break
+								}
+							}
 						}
 					}
 				}
+				inside(l.env, 0)
 			}
 			acctT := s.Env.Term(acct)
 			notFrozen := func(f Fact) bool {
@@ -235,6 +257,29 @@ func c04r1(c *Ctx) {
 				}
 				t := f.Atom[i+2 : j]
 				org, known := entryTerms[t]
+				if !known && f.Env != nil {
+					// an entry named in the terms of a helper that has returned (the gate sits in a helper that reads the entry,
+					// tests it and hands it back): its origin is decided where the helper obtained it
+					for fe := f.Env; fe != nil && !known; fe = fe.Parent {
+						for _, bb := range fe.Fn.Blocks {
+							for _, in := range bb.Instrs {
+								if v, ok := in.(ssa.Value); ok && !known && strings.HasSuffix(v.Type().String(), "esdt.ESDigitalToken") && fe.Term(v) == t {
+									org, known = entryOrigin(fe, v, 0), true
+								}
+							}
+						}
+					}
+				}
+				if os.Getenv("VDEBUG") == "c04" {
+					ch := "nil"
+					if f.Env != nil {
+						ch = ""
+						for fe := f.Env; fe != nil; fe = fe.Parent {
+							ch += fe.Fn.Name() + "<"
+						}
+					}
+					fmt.Println("DEBUG c04 notFrozen atom", f.Atom, "t", t, "org", org, known, "acctT", acctT, "env", ch)
+				}
 				if known && (org == "literal" || org == "read:"+acctT) {
 					return true
 				}
